@@ -12,6 +12,7 @@ CONSTANTS
     InfluxStopF = FALSE
     ReaderDone = TRUE
     AlertCloseOnErr = TRUE
+    UdfStopAborts = FALSE
     HookNeedsTmLock = FALSE
 INVARIANTS
     TypeOK
